@@ -53,6 +53,16 @@ Theorem C19_reads_exact : forall st it r,
 Proof. exact reads_exact. Qed.
 Print Assumptions C19_reads_exact.
 
+(* the two together, along a whole run: the run the model runner prints as S lines (contents
+   ACCOUNTED from the reports, results PREDICTED by the flat-array spec from those accounted
+   contents) shows at every step the same server as the model run, and every prediction it makes
+   is the result the call returned.  The check compares the implementation with exactly these. *)
+Theorem C19_spec_run_agrees : forall items st,
+  map fst (sftp_run_spec st (s_objs (st_srv st)) items) = map snd (sftp_run_obs st items) /\
+  Forall2 pred_ok (map snd (sftp_run_spec st (s_objs (st_srv st)) items)) (map fst (sftp_run_obs st items)).
+Proof. exact spec_run_agrees. Qed.
+Print Assumptions C19_spec_run_agrees.
+
 (* Directory creation.  FULL statement (what the property asks for):
      forall s p s', wf (s_tree s) -> fs_mkdirall false fuel s p = (s', ROk) ->
        forall a rest, skey p = a ++ rest -> is_dir s' a.
